@@ -50,7 +50,8 @@ def poisson_cases(ctx, n):
         G = rng.choice([3, 4, 5]) if NI <= 4 else 3
         perm_internal = list(range(leaves, len(par)))
         rng.shuffle(perm_internal)
-        muts = [rng.choice([0, 0, 1, 2, 3, 5]) if p >= 0 else 0 for p in par]
+        # the root may carry mutations too: they lie above the root, on no edge (second seed C10-b)
+        muts = [rng.choice([0, 0, 1, 2, 3, 5]) if p >= 0 else rng.choice([0, 0, 1, 2]) for p in par]
         grid = G if rng.random() < 0.6 else sorted({0.0} | {round(rng.uniform(0.05, 3.0), 3) for _ in range(G - 1)})
         if not isinstance(grid, int) and len(grid) < 3:
             continue
